@@ -16,15 +16,15 @@ namespace ex = pika::execution::experimental;
 // ---- ledger ---------------------------------------------------------------------------------------
 static long long g_live = 0, g_double = 0, g_addr_violation = 0, g_constructed = 0;
 
-// shared per-object identity: copies get a fresh ledger entry but remember their recipe
-template <std::size_t Pad, std::size_t Align, bool Copyable, bool AddrSensitive>
+// copies get a fresh ledger entry but remember their recipe; kept tiny so that the small kinds really
+// fit pika's 24-byte inline buffer
+template <std::size_t Pad, std::size_t Align, bool Copyable>
 struct alignas(Align) Callable
 {
     int recipe;
-    int calls = 0;
-    int canary = 0x600D;
+    short calls = 0;
     bool throws;
-    void const* self = nullptr;    // only meaningful when AddrSensitive
+    unsigned char canary = 0x5A;
     unsigned char pad[Pad ? Pad : 1];
 
     Callable(int r, bool th) : recipe(r), throws(th) { born(); }
@@ -34,21 +34,20 @@ struct alignas(Align) Callable
     ~Callable()
     {
         check();
-        if (canary != 0x600D) ++g_double;
-        canary = 0xDEAD;
+        canary = 0;
         --g_live;
     }
     void born()
     {
         ++g_live;
         ++g_constructed;
-        self = this;
         for (std::size_t i = 0; i < sizeof pad; ++i) pad[i] = static_cast<unsigned char>(recipe + static_cast<int>(i));
     }
     void check() const
     {
-        if (canary != 0x600D) { ++g_double; return; }
-        if (AddrSensitive && self != this) ++g_addr_violation;
+        if (canary != 0x5A) { ++g_double; return; }
+        for (std::size_t i = 0; i < sizeof pad; ++i)
+            if (pad[i] != static_cast<unsigned char>(recipe + static_cast<int>(i))) { ++g_double; return; }
     }
     int operator()(int x)
     {
@@ -71,12 +70,13 @@ struct MObj
 // kinds: (pad bytes, align, copyable, address sensitive).  sizeof(function storage) == 24.
 //  0: tiny copyable   1: 24-byte-ish copyable  2: larger-than-buffer copyable  3: align 32 copyable
 //  4: tiny move-only  5: big move-only         6: small address-sensitive copyable (F9 shape)
-using K0 = Callable<0, 4, true, false>;
-using K1 = Callable<4, 8, true, false>;
-using K2 = Callable<100, 8, true, false>;
-using K3 = Callable<8, 32, true, false>;
-using K4 = Callable<0, 4, false, false>;
-using K5 = Callable<120, 8, false, false>;
+using K0 = Callable<0, 4, true>;      // 12 bytes: inline
+using K1 = Callable<15, 8, true>;     // exactly 24 bytes: the boundary of the inline buffer
+using K2 = Callable<100, 8, true>;    // heap
+using K3 = Callable<8, 32, true>;     // over-aligned
+using K4 = Callable<0, 4, false>;     // move-only, inline
+using K5 = Callable<120, 8, false>;   // move-only, heap
+static_assert(sizeof(K0) <= 24 && sizeof(K1) == 24 && sizeof(K2) > 24 && sizeof(K4) <= 24 && sizeof(K5) > 24, "size classes around pika's inline function buffer (3 pointers)");
 // address-sensitive callable that fits the 24-byte inline buffer (the shape of a lambda capturing a
 // std::list by value): remembers its own address and checks it on every use
 struct K6
